@@ -58,16 +58,16 @@ package pattern
 // A pattern is absolute exactly when it begins with a separator, written
 // plainly or escaped; the rest is what follows that separator.
 //@ func split
-//@   ensures[C16] plain-leading-separator: len(pat) >= 1 && pat[0] == '/' ==> result0 == "/" && result1 == pat[1:]
-//@   ensures[C16] escaped-leading-separator: len(pat) >= 2 && pat[0] == '\\' && pat[1] == '/' ==> result0 == "/" && result1 == pat[2:]
-//@   ensures[C16] otherwise-relative: len(pat) == 0 || (pat[0] != '/' && pat[0] != '\\') ==> result0 == "." && result1 == pat
+//@   ensures[C16 C15] plain-leading-separator: len(pat) >= 1 && pat[0] == '/' ==> result0 == "/" && result1 == pat[1:]
+//@   ensures[C16 C15] escaped-leading-separator: len(pat) >= 2 && pat[0] == '\\' && pat[1] == '/' ==> result0 == "/" && result1 == pat[2:]
+//@   ensures[C16 C15] otherwise-relative: len(pat) == 0 || (pat[0] != '/' && pat[0] != '\\') ==> result0 == "." && result1 == pat
 
 //@ func indexSep
-//@   loop "for" invariant[C16] len(pat) <= len(pat#0) && (len(pat) == len(pat#0) ==> pat == pat#0) && n == len(pat#0)
-//@   loop "for" invariant[C16] len(pat#0) >= 1 && pat#0[0] == '/' ==> pat == pat#0
-//@   loop "for" invariant[C16] len(pat#0) >= 2 && pat#0[0] == '\\' && pat#0[1] == '/' ==> pat == pat#0
-//@   ensures[C16] plain-separator-first: len(pat#0) >= 1 && pat#0[0] == '/' ==> result0 == 0 && result1 == 1
-//@   ensures[C16] escaped-separator-first: len(pat#0) >= 2 && pat#0[0] == '\\' && pat#0[1] == '/' ==> result0 == 0 && result1 == 2
-//@   ensures[C16] separator-at-the-start-only-if-it-is-one: result0 == 0 ==> len(pat#0) >= 1 && (pat#0[0] == '/' || pat#0[0] == '\\')
+//@   loop "for" invariant[C16 C15] len(pat) <= len(pat#0) && (len(pat) == len(pat#0) ==> pat == pat#0) && n == len(pat#0)
+//@   loop "for" invariant[C16 C15] len(pat#0) >= 1 && pat#0[0] == '/' ==> pat == pat#0
+//@   loop "for" invariant[C16 C15] len(pat#0) >= 2 && pat#0[0] == '\\' && pat#0[1] == '/' ==> pat == pat#0
+//@   ensures[C16 C15] plain-separator-first: len(pat#0) >= 1 && pat#0[0] == '/' ==> result0 == 0 && result1 == 1
+//@   ensures[C16 C15] escaped-separator-first: len(pat#0) >= 2 && pat#0[0] == '\\' && pat#0[1] == '/' ==> result0 == 0 && result1 == 2
+//@   ensures[C16 C15] separator-at-the-start-only-if-it-is-one: result0 == 0 ==> len(pat#0) >= 1 && (pat#0[0] == '/' || pat#0[0] == '\\')
 //@   loop "for" decreases[C16] len(pat)
 //@   ensures (result0 == -1 && result1 == 0) || (0 <= result0 && 1 <= result1 && result1 <= 2 && result0 + result1 <= len(pat))
